@@ -206,7 +206,7 @@ Definition duration_name : str := s2r "time.Duration"%string.
 
 (* bit size of a kind as rty encodes it: 0 = int/uint (64 on the checked
    platform), 1 = uintptr *)
-Definition int_bits (w : N) : N := if w =? 0 then 64 else w.
+Definition int_bits (w : N) : N := if w <=? 1 then 64 else w.
 
 Definition in_int_range (w : N) (z : Z) : bool :=
   let b := int_bits w in
@@ -240,3 +240,93 @@ Definition parse_text (t : ty) (s : str) : outcome val :=
   | TSlice _ _ | TMap _ _ _ => Err e_unmodelled
   | _ => Err e_kind                       (* struct, array, pointer, interface ... *)
   end.
+
+(* ==== helpers used by the flag sources (C12) ==== *)
+
+(* ---- net.IP.UnmarshalText restricted to dotted-quad IPv4 text (and the
+   empty text, which yields a nil IP without error); IPv6 text is not modelled
+   and never generated ---- *)
+Fixpoint split_on (sep : rune) (cur : str) (s : str) : list str :=
+  match s with
+  | [] => [cur]
+  | c :: s' => if c =? sep then cur :: split_on sep [] s' else split_on sep (cur ++ [c]) s'
+  end.
+
+Definition ip_field (f : str) : option N :=
+  match f with
+  | [] => None
+  | c :: r =>
+      if negb (forallb is_digit f) then None
+      else if (c =? 48) && (match r with [] => false | _ => true end) then None   (* leading zero *)
+      else if (3 <? N.of_nat (length f)) then None
+      else let n := fold_left (fun a d => a * 10 + (d - 48)) f 0 in
+           if 255 <? n then None else Some n
+  end.
+
+Definition parse_ip (s : str) : outcome val :=
+  match s with
+  | [] => Ok VNil
+  | _ =>
+      match map ip_field (split_on 46 [] s) with
+      | [Some a; Some b; Some c; Some d] =>
+          Ok (VList (map (fun n => VInt (Z.of_N n)) [0;0;0;0;0;0;0;0;0;0;255;255;a;b;c;d]))
+      | _ => Err e_syntax
+      end
+  end.
+
+(* ---- parse.StringSlice / parse.StringSet / splitMap on the simple alphabet:
+   tokens over [a-z0-9], separated by ',' (and ':' in maps).  Quoting,
+   whitespace and every other rune are outside this stand-in (Err 97). ---- *)
+Definition simple_rune (c : rune) : bool := is_lower c || is_digit c.
+
+Fixpoint csv_loop (cur : str) (acc : list str) (s : str) : outcome (list str) :=
+  match s with
+  | [] => Ok (match cur with [] => acc | _ => acc ++ [cur] end)
+  | c :: s' =>
+      if c =? 44 then csv_loop [] (match cur with [] => acc | _ => acc ++ [cur] end) s'
+      else if simple_rune c then csv_loop (cur ++ [c]) acc s'
+      else Err e_unmodelled
+  end.
+Definition simple_csv (s : str) : outcome (list str) := csv_loop [] [] s.
+
+(* one "k", "k:" or "k:v" segment *)
+Definition kv_segment (seg : str) : outcome (option (str * str)) :=
+  match seg with
+  | [] => Ok None
+  | _ =>
+      if negb (forallb (fun c => simple_rune c || (c =? 58)) seg) then Err e_unmodelled
+      else match split_on 58 [] seg with
+           | [k] => Ok (Some (k, []))
+           | [k; v] => match k with [] => Err e_syntax | _ => Ok (Some (k, v)) end
+           | _ => Err e_syntax                                   (* "unexpected colon" *)
+           end
+  end.
+
+Fixpoint kv_list (segs : list str) : outcome (list (str * str)) :=
+  match segs with
+  | [] => Ok []
+  | seg :: r =>
+      o <- kv_segment seg ;;
+      rest <- kv_list r ;;
+      Ok match o with Some kv => kv :: rest | None => rest end
+  end.
+Definition simple_kvs (s : str) : outcome (list (str * str)) := kv_list (split_on 44 [] s).
+
+(* strings.TrimSpace restricted to ' ' and tab *)
+Fixpoint trim_left (s : str) : str :=
+  match s with c :: r => if (c =? 32) || (c =? 9) then trim_left r else s | [] => [] end.
+Definition trim_space (s : str) : str := rev (trim_left (rev (trim_left s))).
+
+(* parse.SignedIntegralSlice / UnsignedIntegralSlice *)
+Definition int_elem (signed : bool) (bits : N) (p : str) : outcome val :=
+  if signed then omap VInt (parse_int bits (trim_space p))
+  else omap (fun n => VInt (Z.of_N n)) (parse_uint bits (trim_space p)).
+
+Fixpoint int_elems (signed : bool) (bits : N) (l : list str) : outcome (list val) :=
+  match l with
+  | [] => Ok []
+  | a :: r => b <- int_elem signed bits a ;; bs <- int_elems signed bits r ;; Ok (b :: bs)
+  end.
+
+Definition int_slice (signed : bool) (bits : N) (s : str) : outcome (list val) :=
+  int_elems signed bits (split_on 44 [] s).
